@@ -148,6 +148,46 @@ class AudioSim(AoefSim):
         n = min(st["header"], st["payload_bytes"] // (st["ch"] * st["bits"] // 8))
         return st["frames"][:n]
 
+    def partial_row(self, f):
+        """A torn payload may end inside a frame. libsndfile does not count
+        that frame; whether the samples of it that *are* on disk show up in
+        the row past the last whole frame, or zeros do, is not something the
+        statement settles ("frames"), so both are accepted for that one row.
+        Returns (row index, values with the missing channels zero) or None."""
+        st = self.afiles[f]
+        if st["broken"]:
+            return None
+        width = st["bits"] // 8
+        block = st["ch"] * width
+        whole = st["payload_bytes"] // block
+        have = (st["payload_bytes"] % block) // width
+        if whole >= st["header"] or not have or whole >= len(st["frames"]):
+            return None
+        row = np.zeros(st["ch"])
+        row[:have] = st["frames"][whole][:have].astype(np.float64) / float(
+            1 << (st["vbits"] - 1)
+        )
+        return whole, row
+
+    def same_samples(self, f, want, data, first):
+        """data == want, allowing the partial trailing frame (see above) in
+        the row that holds file frame number `whole`; first = file frame
+        number of row 0."""
+        if np.array_equal(want, data):
+            return True
+        part = self.partial_row(f)
+        if part is None or want.shape != data.shape:
+            return False
+        i = part[0] - first
+        if not 0 <= i < len(want):
+            return False
+        alt = want.copy()
+        alt[i] = part[1]
+        if np.array_equal(alt, data):
+            self.probes.hit("C15:partial-trailing-frame-shown")
+            return True
+        return False
+
     def write_file(self, f):
         st = self.afiles[f]
         path = self.apath(f)
@@ -202,10 +242,17 @@ class AudioSim(AoefSim):
             "payload_bytes": frames.size * bits // 8, "broken": 0,
             "layout": op.get("layout", "plain"),
         }
+        # a recording describes one file; when another file takes its place
+        # (other rate, other channels) the description is not "stale", it is
+        # of something else
+        for r in [r for r, rec in self.recs.items() if rec["file"] == op["f"]]:
+            del self.recs[r]
         self.probes.hit(f"file:{enc}-{bits}")
         self.probes.hit(f"file:header-{op.get('layout', 'plain')}")
         if op["frames"] >= 65_536:
             self.probes.hit("file:>=65536-frames")
+        if op["frames"] >= (1 << 20):
+            self.probes.hit("file:>=2**20-frames")
         raw = self.write_file(op["f"])
         self.record(op, "ok", file=sha(raw))
         self.trace.append(("create", op["ch"], op["frames"] == 0))
@@ -301,6 +348,7 @@ class AudioSim(AoefSim):
             },
             "audio_dir": root,
             "file": op["f"],
+            "how": op["how"],
             "frames_at_capture": (
                 None if self.on_disk(op["f"]) is None else len(self.on_disk(op["f"]))
             ),
@@ -375,6 +423,7 @@ class AudioSim(AoefSim):
                 "a_load_clip", recording=spec, start=start, end=end,
                 handle=op["h"], audio_dir=rec["audio_dir"],
                 audio_as=op.get("audio_as", "str"),
+                fresh=bool(op.get("fresh")),
                 _env=self.env_audio(op.get("fault")),
             )
         except NodeCrashed:
@@ -386,6 +435,13 @@ class AudioSim(AoefSim):
             self.trace.append(("load_clip", "crashed"))
             return
         self.note_fault(op, reply)
+        if reply["outcome"] == "refused":
+            self.record(op, f"refused:{reply.get('exc')}")
+            self.trace.append(("load_clip", "refused"))
+            self.probes.hit("world:construction-refused")
+            return
+        if not op.get("fresh"):
+            self.probes.hit("C15:same-live-recording-object-again")
         fired = bool(reply.get("_fault_fired"))
         disk = self.on_disk(rec["file"])
         outcome = reply["outcome"]
@@ -473,7 +529,7 @@ class AudioSim(AoefSim):
             want = np.zeros((n, st["ch"]))
             have = disk[o : o + n]
             want[: len(have)] = have.astype(np.float64) / float(1 << (st["vbits"] - 1))
-            if np.array_equal(want, data):
+            if self.same_samples(rec["file"], want, data, o):
                 ok_data = True
                 want_t = (o + np.arange(n)) / sr
                 if n == 0 or np.all(
@@ -513,6 +569,23 @@ class AudioSim(AoefSim):
                     "C15", "C15:clip-vs-recording",
                     "clip frames differ from the same frames of load_recording",
                 )
+            # "the same frame of load_recording" has to exist: with metadata
+            # read from this very file (not stale, samplerate x time
+            # expansion a whole number, so duration x samplerate is the
+            # frame count up to rounding) load_recording covers every file
+            # frame the clip covers
+            reach_ = min(o + n, len(disk))
+            if (
+                rec.get("how") == "from_file"
+                and not stale
+                and float(st["sr"] * spec["time_expansion"]).is_integer()
+                and len(whole["data"]) < reach_ - 1
+            ):
+                self.violate(
+                    "C15", "C15:clip-vs-recording",
+                    f"clip frames {o}..{reach_} are in the file but "
+                    f"load_recording returned only {len(whole['data'])} frames",
+                )
             self.probes.hit("C15:clip-vs-recording-compared")
 
     # ------------------------------------------------------- load_recording
@@ -527,7 +600,10 @@ class AudioSim(AoefSim):
         try:
             reply = node.call(
                 "a_load_recording", recording=spec, handle=op["h"],
-                audio_dir=rec["audio_dir"], _env=self.env_audio(op.get("fault")),
+                audio_dir=rec["audio_dir"],
+                audio_as=op.get("audio_as", "str"),
+                fresh=bool(op.get("fresh")),
+                _env=self.env_audio(op.get("fault")),
             )
         except NodeCrashed:
             if "crash" not in (op.get("fault") or ""):
@@ -538,6 +614,11 @@ class AudioSim(AoefSim):
             self.trace.append(("load_recording", "crashed"))
             return
         self.note_fault(op, reply)
+        if reply["outcome"] == "refused":
+            self.record(op, f"refused:{reply.get('exc')}")
+            self.trace.append(("load_recording", "refused"))
+            self.probes.hit("world:construction-refused")
+            return
         fired = bool(reply.get("_fault_fired"))
         disk = self.on_disk(rec["file"])
         outcome = reply["outcome"]
@@ -572,7 +653,7 @@ class AudioSim(AoefSim):
         want[: len(have)] = have.astype(np.float64) / float(1 << (st["vbits"] - 1))
         if shape[0] != len(disk):
             self.probes.hit("C15:load_recording-length-differs-from-file")
-        if not np.array_equal(want, data):
+        if not self.same_samples(rec["file"], want, data, 0):
             self.violate(
                 "C15", "C15:data",
                 f"load_recording returned shape {shape}, file holds "
@@ -734,8 +815,9 @@ def draw_run_cfg(rng, focus, tier):
         "max_ops": rng.choice([8, 12, 18] + ([30] if thorough else [])),
         "rates": rng.sample(SAMPLE_RATES, rng.randint(1, 4)),
         "max_frames": (
-            rng.choice([70_000, 140_000])  # block / buffer size thresholds
-            if rng.random() < (0.05 if thorough else 0.02)
+            # block / buffer size thresholds; rarely minutes of audio
+            rng.choice([70_000, 140_000, 140_000, 1_200_000, 2_300_000])
+            if rng.random() < (0.06 if thorough else 0.03)
             else rng.choice([40, 300, 1500] + ([4000] if thorough else []))
         ),
         "channels": rng.sample([1, 2, 3, 4], rng.randint(1, 3)),
@@ -770,9 +852,11 @@ def gen_ops(rng, cfg, seed_tag):
         sr = rng.choice(cfg["rates"])
         frames = rng.choice([0, 1, 2, rng.randint(0, cfg["max_frames"]),
                              rng.randint(0, cfg["max_frames"])])
-        ops.append({"op": "create", "f": f, "sr": sr, "ch": rng.choice(cfg["channels"]),
+        long_file = frames > 300_000
+        ops.append({"op": "create", "f": f, "sr": sr,
+                    "ch": 1 if long_file else rng.choice(cfg["channels"]),
                     "frames": frames, "salt": rng.randrange(1 << 16),
-                    "bits": rng.choice(cfg["bits"]),
+                    "bits": 16 if long_file else rng.choice(cfg["bits"]),
                     "layout": rng.choice(cfg.get("layouts", ["plain"]))})
         files[f] = [sr, frames]
         return f
@@ -787,7 +871,12 @@ def gen_ops(rng, cfg, seed_tag):
                         "relative": cfg["relative"]})
             rec_sr = int(sr * te)
         else:
-            rec_sr = max(1, int(sr * te)) if rng.random() < 0.8 else rng.choice(SAMPLE_RATES)
+            # what from_file would say about the rate (a recording that
+            # contradicts its file's header is outside the quantifier); the
+            # duration may be off (stale or hand-written metadata)
+            rec_sr = int(sr * te)
+            if rec_sr < 1:
+                te, rec_sr = 1.0, sr
             duration = (frames / rec_sr) * rng.choice([1.0, 1.0, 0.5, 2.0])
             ops.append({"op": "recording", "r": r, "f": f, "how": "manual",
                         "te": te, "samplerate": rec_sr, "duration": duration,
@@ -819,18 +908,29 @@ def gen_ops(rng, cfg, seed_tag):
             a, b = b, a
         if rng.random() < 0.1:
             b = a + rng.choice([0.0, 0.4 / rec_sr, 0.999 / rec_sr])
+        if frames > 200_000:
+            # long files: clips of bounded length, around the places where a
+            # block-wise reader changes block (2**16, 2**18, 2**20 frames)
+            edge = rng.choice([1 << 16, 1 << 18, 1 << 20, 1 << 20, 1 << 21, frames])
+            a = max(0.0, (edge - rng.randint(0, 60_000)) / rec_sr)
+            b = a + rng.randint(1, 120_000) / rec_sr
         hh = h()
         n = node()
         ops.append({"op": "load_clip", "r": r, "start": max(a, 0.0), "end": max(b, 0.0),
                     "node": n, "h": hh, "fault": fault,
-                    "audio_as": rng.choice(["str", "path"])})
+                    "audio_as": rng.choice(["str", "path"]),
+                    "fresh": rng.random() < 0.3})
         arrays.append((hh, n))
         return hh
 
     def load_recording(r, fault=None):
+        if files[recs[r][0]][1] > 300_000:
+            return load_clip(r, fault)  # minutes of audio are read in clips
         hh = h()
         n = node()
-        ops.append({"op": "load_recording", "r": r, "node": n, "h": hh, "fault": fault})
+        ops.append({"op": "load_recording", "r": r, "node": n, "h": hh, "fault": fault,
+                    "audio_as": rng.choice(["str", "path"]),
+                    "fresh": rng.random() < 0.3})
         arrays.append((hh, n))
         return hh
 
@@ -1043,8 +1143,12 @@ ASSUMPTIONS = [
     "short reads into libsndfile, pre-emption inside a call and concurrent "
     "callers are not simulated (DESIGN 3.2)",
 ]
+# advisory: whether they can be hit depends on the library under test (does
+# it pass through the soundfile seam, may a returned array be written to)
 SEAM_PROBES = {
-    "C15": ["sf_open_error", "sf_read_error", "sf_open_crash", "sf_read_crash"],
+    "C15": ["sf_open_error", "sf_read_error", "sf_open_crash", "sf_read_crash",
+            "C15:returned-array-modified-in-place",
+            "C15:clip-vs-recording-compared"],
 }
 CORE_PROBES = {
     "C15": [
